@@ -32,7 +32,7 @@ import (
 func init() {
 	Register(&Spec{
 		ID: "C03", Level: "exploration",
-		Rule: "cases = chains driven by the htlc director: plain (1-3 coins, timestamp 0 and non-zero), incoming and outgoing cross-chain contracts with scripted fates (claim early / in the block before expiry / at expiry / after, never, wrong secret, secret bound to another timestamp, second claim, claim after refund, claim in the creating block, duplicate create while open / completed / refunded, expiry buckets of 3-6 contracts) followed by weighted random intents; a case is non-trivial when a create/claim succeeded, a targeted hostile claim/create was executed (and rejected) or a contract was refunded at block begin, and the state-machine, balance-sheet or refund-set relation was evaluated on it; distinct = distinct (event kind, contract type, coin count, timestamp class, secret kind, claim timing, claimer role, duplicate kind, bucket size class, outcome); since rounds 11-14: every refusal of the preimage of an open contract is judged (only parameter-caused refusals of cross-chain claims are excused), four cross-chain transfers born in genesis, recipients in upper-case bech32 / 32 bytes, a crowd of 125-154 contracts falling due together in every fourth chain, one parameter update in four loosened and rolled back",
+		Rule: "cases = chains driven by the htlc director: plain (1-3 coins, timestamp 0 and non-zero), incoming and outgoing cross-chain contracts with scripted fates (claim early / in the block before expiry / at expiry / after, never, wrong secret, secret bound to another timestamp, second claim, claim after refund, claim in the creating block, duplicate create while open / completed / refunded, expiry buckets of 3-6 contracts) followed by weighted random intents; a case is non-trivial when a create/claim succeeded, a targeted hostile claim/create was executed (and rejected) or a contract was refunded at block begin, and the state-machine, balance-sheet or refund-set relation was evaluated on it; distinct = distinct (event kind, contract type, coin count, timestamp class, secret kind, claim timing, claimer role, duplicate kind, bucket size class, outcome); since rounds 11-14: every refusal of the preimage of an open contract is judged (only parameter-caused refusals of cross-chain claims are excused), four cross-chain transfers born in genesis, recipients in upper-case bech32 / 32 bytes, a crowd of 125-154 contracts falling due together in every fourth chain, one parameter update in four loosened and rolled back; since rounds 15-19: the bank's send-enabled switch of a plain denomination is turned off for seven blocks every 45; a claim refused as over a supply limit is excused only when the supply figures the chain kept before the transaction, plus the amount, exceed the limit named; a time-based limit is set below what the running period has counted",
 		Assume: []string{
 			"tx fees are zero in the harness, so the ante handler moves no coins",
 			"contract id = sha256(hashlock||sender||to||sorted amount string), lock = sha256(secret||be64(timestamp)) (timestamp 0: sha256(secret)), computed by the harness independently",
@@ -44,7 +44,7 @@ func init() {
 	})
 	Register(&Spec{
 		ID: "C04", Level: "exploration",
-		Rule: "same director as C03 biased to cross-chain transfers: 4 assets (with and without genesis supply, time-limited or not, generated limits/fees/min/max/locks, distinct and shared deputies), amounts placed at limit, limit+1, time-based limit and min/max boundaries, block-time deltas that land before / exactly on / after the limit-period boundary, parameter changes mid-history through the authority path (incl. the busiest asset switched off and on again, and the asset with most outgoing value in flight taken off the list for eight blocks); relations are evaluated after block begin, after every successful tx and after block end; non-trivial = a boundary at which at least one contract was open or an asset counter non-zero, or a successful cross-chain create/claim/refund; distinct = distinct (observation point, event kind, direction, asset configuration class, fit class, window phase, outcome); since rounds 11-14: as C03 (genesis-born transfers, upper-case recipients, crowds, loosened-and-rolled-back parameter updates)",
+		Rule: "same director as C03 biased to cross-chain transfers: 4 assets (with and without genesis supply, time-limited or not, generated limits/fees/min/max/locks, distinct and shared deputies), amounts placed at limit, limit+1, time-based limit and min/max boundaries, block-time deltas that land before / exactly on / after the limit-period boundary, parameter changes mid-history through the authority path (incl. the busiest asset switched off and on again, and the asset with most outgoing value in flight taken off the list for eight blocks); relations are evaluated after block begin, after every successful tx and after block end; non-trivial = a boundary at which at least one contract was open or an asset counter non-zero, or a successful cross-chain create/claim/refund; distinct = distinct (observation point, event kind, direction, asset configuration class, fit class, window phase, outcome); since rounds 11-14: as C03 (genesis-born transfers, upper-case recipients, crowds, loosened-and-rolled-back parameter updates); since rounds 15-19: see C03 (send-enabled switch, period limit below what was counted)",
 		Assume: []string{
 			"asset denoms enter the chain only through the module or through genesis balances that the genesis asset supply records (offset bank supply - current supply is constant, 0 on every denom used)",
 			"limit clauses are asserted only while the asset's parameters are unchanged: the total-limit clause from the first boundary at which it holds after a change, the time-based clause from the first window reset after a change",
